@@ -109,7 +109,15 @@ func (c *replacerCompiler) compile(v reflect.Value) Replacer {
 		}
 
 	case goast.ObjectPtrType:
-		// Ident.Obj forms a cycle so we'll replace it with a nil pointer.
+		// Ident.Obj forms a cycle so we don't copy it. In the code of the
+		// patch it means nothing: we replace it with a nil pointer. In code
+		// captured from the file (compiled without metavariables) it says
+		// that the name was declared in the file, which is how a local
+		// variable called "log" is told from the package: keep pointing
+		// at the same object.
+		if c.meta == nil {
+			return ValueReplacer{Value: v}
+		}
 		return ValueReplacer{
 			Value: reflect.ValueOf((*ast.Object)(nil)),
 		}
